@@ -46,6 +46,14 @@ private:
    */
   void propagateDirection_(Graph::NodeId node);
 
+  /**
+   * Orient all the edges of the (valid, directed) tree away from a node,
+   * whatever their present direction: used to root an unrooted tree.
+   * @param node the node to start from
+   * @param from the neighbor already treated (node itself for the root)
+   */
+  void orientFrom_(Graph::NodeId node, Graph::NodeId from);
+
   // recursive function for getSubtreeNodes
   void fillSubtreeMetNodes_(std::vector<Graph::NodeId>& metNodes, Graph::NodeId localRoot) const;
 
@@ -334,11 +342,33 @@ void TreeGraphImpl<GraphImpl>::rootAt(Graph::NodeId newRoot)
   if (!isValid())
     throw Exception("TreeGraphImpl::rootAt: Tree is not Valid.");
 
+  const bool wasRooted = isRooted();
   GraphImpl::makeDirected();
   // set the new root on the Graph
   GraphImpl::setRoot(newRoot);
-  // change edge direction between the new node and the former one
-  propagateDirection_(newRoot);
+  if (wasRooted)
+    // change edge direction between the new node and the former one
+    propagateDirection_(newRoot);
+  else
+    // the tree was unrooted: makeDirected() chose arbitrary directions,
+    // every edge has to be oriented away from the new root
+    orientFrom_(newRoot, newRoot);
+}
+
+template<class GraphImpl>
+void TreeGraphImpl<GraphImpl>::orientFrom_(Graph::NodeId node, Graph::NodeId from)
+{
+  std::vector<Graph::NodeId> incomers = GraphImpl::getIncomingNeighbors(node);
+  for (auto incomer : incomers)
+  {
+    if (incomer != from)
+      GraphImpl::switchNodes(incomer, node);
+  }
+  std::vector<Graph::NodeId> sons = GraphImpl::getOutgoingNeighbors(node);
+  for (auto son : sons)
+  {
+    orientFrom_(son, node);
+  }
 }
 
 template<class GraphImpl>
